@@ -99,18 +99,18 @@ func (c latencyCase) valueChurn(m *lib.Monitor, s3bp bool) {
 			m.Violate("C09/Value/churn/set-error", "the parked Set failed although the subscriber then received", c, "nil", err.Error())
 			return
 		}
-	case <-time.After(10 * time.Second):
+	case <-time.After(churnWait):
 		m.Violate("C09/Value/churn/writer-stuck", "the parked Set did not return after the subscriber received", c, "return", "blocked")
 		return
 	}
 	for _, val := range []string{"v2", "v3"} {
 		val := val
-		if ok, err := timedCall(10*time.Second, func() error { _, err := v.Set(wrapperspb.String(val)); return err }); !ok || err != nil {
+		if ok, err := timedCall(churnWait, func() error { _, err := v.Set(wrapperspb.String(val)); return err }); !ok || err != nil {
 			m.Violate("C09/Value/churn/writer-stuck", "a later Set did not complete", c, "nil", fmt.Sprint(ok, err))
 			return
 		}
 	}
-	okLast := waitFor(10*time.Second, func() bool {
+	okLast := waitFor(churnWait, func() bool {
 		g := got.get()
 		return len(g) > 0 && g[len(g)-1] == "v3"
 	})
@@ -166,25 +166,29 @@ func (c latencyCase) collectionChurn(m *lib.Monitor) {
 			m.Violate("C09/Collection/churn/write-error", "the parked Update failed", c, "nil", err.Error())
 			return
 		}
-	case <-time.After(10 * time.Second):
+	case <-time.After(churnWait):
 		m.Violate("C09/Collection/churn/writer-stuck", "the parked Update did not return after the subscriber received", c, "return", "blocked")
 		return
 	}
 	for _, val := range []string{"a2", "a3"} {
 		val := val
-		if ok, err := timedCall(10*time.Second, func() error { _, err := col.Update("a", wrapperspb.String(val)); return err }); !ok || err != nil {
+		if ok, err := timedCall(churnWait, func() error { _, err := col.Update("a", wrapperspb.String(val)); return err }); !ok || err != nil {
 			m.Violate("C09/Collection/churn/writer-stuck", "a later Update did not complete", c, "nil", fmt.Sprint(ok, err))
 			return
 		}
 	}
 	want := "a,ADD,0,-,a1,1,1;a,UPDATE,0,a1,a2,0,0;a,UPDATE,0,a2,a3,0,0"
-	waitFor(10*time.Second, func() bool { return showChanges(got.get()) == want })
+	waitFor(churnWait, func() bool { return showChanges(got.get()) == want })
 	if g := showChanges(got.get()); g != want {
 		m.Violate("C09/Collection/churn/new-subscriber-starved", "a backpressured subscriber opened while a write was parked in Send (and another subscription was cancelled) does not receive later writes", c, want, g)
 		return
 	}
 	m.Eval(c.What, true, nil)
 }
+
+// churnWait bounds every wait for something that happens within milliseconds on a correct tree, so a
+// broken tree cannot stretch the run (each scenario is re-run twice to confirm a failure)
+const churnWait = 1500 * time.Millisecond
 
 const subscriberPause = 6 * time.Second
 
@@ -218,7 +222,7 @@ func (c latencyCase) collectionPause(m *lib.Monitor, del bool) {
 	}
 	// the subscriber resumes: seed, then the event of the write
 	var got []string
-	timeout := time.After(10 * time.Second)
+	timeout := time.After(churnWait)
 loop:
 	for len(got) < 2 {
 		select {
@@ -240,7 +244,7 @@ loop:
 			if err != nil {
 				m.Violate("C09/Collection/backpressure/write-error", name+" failed", c, "nil", err.Error())
 			}
-		case <-time.After(10 * time.Second):
+		case <-time.After(churnWait):
 			m.Violate("C09/Collection/backpressure/writer-stuck", name+" did not return after the subscriber received", c, "return", "blocked")
 		}
 	}
